@@ -293,7 +293,7 @@ EXTRA = {'C01': 'Each configuration additionally runs with failing appenders (no
         "and file. The configuration pool spells names with '-' and '_' (distinct loggers, both spellings as "
         'targets). Every other reconfiguration of a history lands inside a log call of the same thread (at the '
         "call's first load of the shared state): the record in flight is delivered as one of the two configurations "
-        'says.',
+        'says. Every other build declares the loggers in reverse order (deeper names before their ancestors).',
  'C03': 'Sinks are Append implementors and log::Log implementors attached through the blanket adapter (whose own '
         'enabled() says no); builder styles filter()/filters() are mixed. The real ThresholdFilter takes Neutral / '
         'Reject positions inside scripted chains; a child process counts the calls of the handler given to '
